@@ -2,6 +2,7 @@ package props
 
 import (
 	"bytes"
+	"context"
 	"fmt"
 	"reflect"
 	"strings"
@@ -37,6 +38,26 @@ func c06DestTypes() []reflect.Type {
 		return reflect.StructOf(fs)
 	}
 	out = append(out, mk(2), mk(9), mk(17), reflect.TypeOf(universe.Rec{}), reflect.MapOf(universe.TInt, universe.TString))
+	// a type with only the context-aware UnmarshalJSON (reached with and without a context), map keys of kinds
+	// that are not JSON object keys
+	uc := reflect.TypeOf(universe.UC{})
+	out = append(out, uc, reflect.StructOf([]reflect.StructField{{Name: "F", Type: uc}, {Name: "G", Type: reflect.TypeOf(universe.UJ{})}}),
+		reflect.SliceOf(uc), reflect.MapOf(universe.TString, reflect.PtrTo(uc)))
+	for _, k := range []reflect.Type{reflect.PtrTo(universe.TInt), universe.TBool, universe.TFloat64, universe.TIface, reflect.ArrayOf(1, universe.TInt)} {
+		out = append(out, reflect.MapOf(k, universe.TString))
+	}
+	return out
+}
+
+// c06CtxTypes: destinations that contain user callbacks; these also go through the context entry points.
+func c06CtxTypes(types []reflect.Type) []reflect.Type {
+	var out []reflect.Type
+	for _, t := range types {
+		d := universe.Desc(t, 4)
+		if strings.Contains(d, "UJ") || strings.Contains(d, "UC") || strings.Contains(d, "UT") || strings.Contains(d, "UI") {
+			out = append(out, t)
+		}
+	}
 	return out
 }
 
@@ -70,6 +91,15 @@ func c06All(c *work.Ctx, in []byte, types []reflect.Type) {
 		c06Call(c, "UnmarshalNoEscape into "+universe.Desc(t, 3), in, func() { json.UnmarshalNoEscape(cp(), reflect.New(t).Interface()) })
 		c06Call(c, "UnmarshalWithOption(first-win) into "+universe.Desc(t, 3), in, func() {
 			json.UnmarshalWithOption(cp(), reflect.New(t).Interface(), json.DecodeFieldPriorityFirstWin())
+		})
+	}
+	for _, t := range c06CtxTypes(types) {
+		t := t
+		c06Call(c, "UnmarshalContext into "+universe.Desc(t, 3), in, func() {
+			json.UnmarshalContext(context.Background(), cp(), reflect.New(t).Interface())
+		})
+		c06Call(c, "Decoder.DecodeContext into "+universe.Desc(t, 3), in, func() {
+			json.NewDecoder(bytes.NewReader(in)).DecodeContext(context.Background(), reflect.New(t).Interface())
 		})
 	}
 	c06Call(c, "Decoder.Token/More", in, func() {
